@@ -3,7 +3,7 @@ from fractions import Fraction as Fr
 
 from ..nf import Rat, C
 from ..source import Unsupported, AnchorError
-from ..xlate import Interp, Obj, ListV, DictV, Raised
+from ..xlate import Interp, Obj, ListV, DictV, Raised, RankOrder
 from .common import same, show, sub, opaque_obj
 from .rxnfix import reaction, make_reaction, state_sum, species, set_public, get_public
 from .c08 import expected_delta, expected_state
@@ -25,6 +25,37 @@ def gas_constant(I, u):
     return D.sym('kb') * I.unit(u)
 
 
+# what the rule knows to be positive: temperatures, physical constants and (by prefix) the unit factors U<..>
+POSITIVE = ('T', 'T2', 'kb', 'Na', 'h')
+
+
+def positive_factor(f):
+    """f is a monomial with a positive coefficient over atoms that are positive"""
+    if not (isinstance(f, Rat) and f.is_monomial()):
+        return False
+    (k_, c_), = f.n.t.items()
+    return c_ > 0 and all(a_ in POSITIVE or a_.startswith('U<') for a_, _e in k_)
+
+
+def max_set(I, r):
+    """the arguments of a maximum, whatever way it is spelled: c * max(a, b, ..) with a positive factor c is the list
+    [c a, c b, ..] (a positive factor goes through a maximum); None when r is not of that form"""
+    if not isinstance(r, Rat):
+        return None
+    at = [a for a in r.atoms() if a in I.extrema and a.startswith('MAX{')]
+    if len(at) != 1:
+        return None
+    lin = r.split_linear(at[0])
+    if lin is None or not lin[1].iszero() or not positive_factor(lin[0]):
+        return None
+    return [a * lin[0] for a in I.extrema[at[0]]]
+
+
+def same_set(xs, ys):
+    return xs is not None and ys is not None and all(any(same(x, y) for y in ys) for x in xs) and \
+        all(any(same(x, y) for x in xs) for y in ys)
+
+
 def clamp(run, repo):
     n = 0
     for cname, qual in (('ChemkinReaction', CHEM), ('SurfaceReaction', SURF)):
@@ -33,45 +64,56 @@ def clamp(run, repo):
             I = Interp(repo)
             D = I.D
             T, P = D.sym('T'), D.sym('P')
+            T2, P2 = D.sym('T2'), D.sym('P2')
             rxn, rs, ps, ts = reaction(I, repo, qual, nts=1 if has_ts else 0)
-            kw = {'T': T, 'P': P}
+            # one reaction object is asked again and again, as the writers of the kinetic-model files do (one object,
+            # several run conditions): other pressure at the same temperature, other temperature, and (thorough tier)
+            # the first conditions once more.  What an earlier call left on the object must not show in a later answer
+            conds = [('', T, P)]
+            if has_ts or run.tier == 'thorough':
+                conds += [(' again at (T, P2)', T, P2), (' again at (T2, P2)', T2, P2)]
+            if run.tier == 'thorough':
+                conds += [(' again at (T, P)', T, P)]
             for X in ('HoRT', 'GoRT'):
                 owner, fn = repo.find_method(ci, 'get_%s_act' % X)
                 run.fn('%s.get_%s_act' % (owner.qual, X))
+                dim = 'get_%s_act' % X[0]
+                o2, f2 = repo.find_method(ci, dim)
+                run.fn('%s.%s' % (o2.qual, dim))
                 for rev in (False, True):
-                    got = I.call_method(rxn, 'get_%s_act' % X, [], dict(kw, rev=rev))
-                    d = expected_delta(I, rxn, 'get_' + X, kw, rev, False)
-                    want = [C(0), d]
-                    if has_ts:
-                        want.append(expected_delta(I, rxn, 'get_' + X, kw, rev, True))
-                    key = 'TS=%s rev=%s' % (has_ts, rev)
-                    ok = False
-                    args = None
-                    if isinstance(got, Rat):
-                        at = [a for a in got.atoms() if a in I.extrema and a.startswith('MAX{')]
-                        if len(at) == 1 and got.eq(Rat.atom(at[0])):
-                            args = I.extrema[at[0]]
-                            ok = all(any(same(a, w) for a in args) for w in want) and \
-                                all(any(same(a, w) for w in want) for a in args)
-                    run.check(ok, 'REF.clamp', '%s.get_%s_act' % (cname, X), key,
-                              'activation %s must be max(0, barrier through the transition state%s, reaction change) '
-                              'in the requested direction with the same conditions; got %s'
-                              % (X, '' if has_ts else ' (none here)', show(got, 260)), owner.module, fn,
-                              sample='%s.get_%s_act(%s) == max(0, d_act, d)' % (cname, X, key) if has_ts and rev else None)
-                    n += 1
-                    # the dimensional getter is the dimensionless one times R(units) T: same direction, same
-                    # conditions (T and P both named), in more than one unit system
-                    dim = 'get_%s_act' % X[0]
-                    o2, f2 = repo.find_method(ci, dim)
-                    run.fn('%s.%s' % (o2.qual, dim))
-                    for u in (DIM_UNITS if run.tier == 'thorough' else DIM_UNITS[:1] + DIM_UNITS[-1:]):
-                        gd = I.call_method(rxn, dim, [], dict(kw, units=u, rev=rev))
-                        wd = got * gas_constant(I, u) * T if isinstance(got, Rat) else None
-                        run.check(wd is not None and isinstance(gd, Rat) and same(gd, wd), 'TWIN.act-dim',
-                                  '%s.%s' % (cname, dim), '%s units=%s' % (key, u),
-                                  '%s(units=%r, T, P, rev=%s) is %s, expected get_%s_act(T, P, rev=%s) * R(%s) * T = %s'
-                                  % (dim, u, rev, show(gd, 200), X, rev, u, show(wd, 200)), o2.module, f2)
+                    for ctag, Tc, Pc in conds:
+                        kw = {'T': Tc, 'P': Pc}
+                        got = I.call_method(rxn, 'get_%s_act' % X, [], dict(kw, rev=rev))
+                        d = expected_delta(I, rxn, 'get_' + X, kw, rev, False)
+                        want = [C(0), d]
+                        if has_ts:
+                            want.append(expected_delta(I, rxn, 'get_' + X, kw, rev, True))
+                        key = 'TS=%s rev=%s%s' % (has_ts, rev, ctag)
+                        ok = same_set(max_set(I, got), want)
+                        run.check(ok, 'REF.clamp', '%s.get_%s_act' % (cname, X), key,
+                                  'activation %s must be max(0, barrier through the transition state%s, reaction '
+                                  'change) in the requested direction with the conditions of this call%s; got %s'
+                                  % (X, '' if has_ts else ' (none here)',
+                                     ' (the object was asked before under other conditions)' if ctag else '',
+                                     show(got, 260)), owner.module, fn,
+                                  sample='%s.get_%s_act(%s) == max(0, d_act, d)' % (cname, X, key)
+                                  if has_ts and rev else None)
                         n += 1
+                        # the dimensional getter is the dimensionless one times R(units) T: same direction, same
+                        # conditions (T and P both named), in more than one unit system
+                        for u in (DIM_UNITS if run.tier == 'thorough' else
+                                  DIM_UNITS[:1] if ctag else DIM_UNITS[:1] + DIM_UNITS[-1:]):
+                            gd = I.call_method(rxn, dim, [], dict(kw, units=u, rev=rev))
+                            wd = got * gas_constant(I, u) * Tc if isinstance(got, Rat) else None
+                            # equal as numbers: the same normal form, or maxima over the same set of arguments
+                            # (R(units) T is positive: it may stand inside or outside the maximum)
+                            run.check(wd is not None and isinstance(gd, Rat) and
+                                      (same(gd, wd) or same_set(max_set(I, gd), max_set(I, wd))), 'TWIN.act-dim',
+                                      '%s.%s' % (cname, dim), '%s units=%s' % (key, u),
+                                      '%s(units=%r, T, P, rev=%s)%s is %s, expected get_%s_act(T, P, rev=%s) * R(%s) '
+                                      '* T of the same call conditions = %s'
+                                      % (dim, u, rev, ctag, show(gd, 200), X, rev, u, show(wd, 200)), o2.module, f2)
+                            n += 1
     return n
 
 
@@ -82,17 +124,63 @@ def adj_slope(desc, rev, slope):
     return slope - 1 if rev else slope
 
 
+# Orderings of a BEP barrier against zero.  The property quantifies over exothermic and endothermic steps, slopes 0-1
+# and intercepts 0-60 kcal/mol: a linear relation then gives a NEGATIVE barrier in one direction of a strongly
+# exo-/endothermic step (slope*dH + intercept < 0), and the laws hold there as everywhere.  A comparison of the barrier
+# with a number is answered at a concrete point (a witness, as the other properties do for T against segment bounds):
+# R T = 1 kcal/mol (kb = Na = 1, U<kcal> = 1/500, T = 500 K), slope 0.3, intercept 2 kcal/mol, coefficients 1,
+# enthalpies/energies over RT of the species as listed (dH = -30 or +30 kcal/mol).  The unchanged code never asks.
+BEP_WITNESSES = (
+    ('exothermic, forward barrier below zero', {'r0': -10, 'r1': -12, 'p0': -25, 'p1': -27}),
+    ('endothermic, reverse barrier below zero', {'r0': -25, 'r1': -27, 'p0': -10, 'p1': -12}),
+)
+
+
+def bep_order(species_values):
+    ranks = {'kb': Fr(1), 'Na': Fr(1), 'h': Fr(1), 'U<kcal>': Fr(1, 500), 'T': Fr(500), 'P': Fr(1),
+             'bep.slope': Fr(3, 10), 'bep.intercept': Fr(2)}
+
+    def fallback(atom):
+        if atom.startswith('nu_'):
+            return Fr(1)
+        if atom.startswith('U<'):
+            return Fr(1, 100)        # some positive unit factor: signs do not depend on it
+        head, dot, rest = atom.partition('.')
+        if dot and head in species_values and rest.startswith('get_'):
+            return Fr(species_values[head])
+        return None                  # anything else stays undecided (the analysis refuses)
+    return RankOrder(ranks, const_ranks=True, fallback=fallback, witness=True)
+
+
 def bep_rules(run, repo):
     n = 0
     bci = repo.cls('pmutt.reaction.bep.BEP')
     for m_ in ('get_E_act', 'get_EoRT_act', 'get_UoRT', 'get_HoRT'):
         run.fn('pmutt.reaction.bep.BEP.' + m_)
     for desc in DESCRIPTORS:
-        I = Interp(repo)
+        # once per ordering of the barrier against zero, then without any ordering (all values at once; a comparison
+        # that needs an answer there is outside the fragment and ends the analysis - after the orderings have been
+        # decided, so that what they established is reported)
+        for label, values in BEP_WITNESSES:
+            n += bep_instance(run, repo, bci, desc, bep_order(values), ' [%s]' % label)
+        n += bep_instance(run, repo, bci, desc, None, '')
+    return n
+
+
+def bep_instance(run, repo, bci, desc, order, tag):
+    n = 0
+    quick_witness = order is not None and run.tier != 'thorough'
+    if True:
+        I = Interp(repo, order=order)
         D = I.D
         T, P = D.sym('T'), D.sym('P')
         rxn, rs, ps, ts = reaction(I, repo, 'pmutt.reaction.Reaction', nts=0)
-        bep = Obj('bep', bci, attrs={'descriptor': desc, 'name': 'bep'})
+        # through the public constructor: where the class keeps slope and intercept is its own business; the rule
+        # recognises them by the symbols it handed in
+        bep = I.construct(bci, [], {'slope': D.sym('bep.slope'), 'intercept': D.sym('bep.intercept'), 'name': 'bep',
+                                    'descriptor': desc}, name='bep')
+        if isinstance(bep, Raised):
+            raise Unsupported('BEP(slope, intercept, name, descriptor=%r) raised %s' % (desc, bep.exc))
         set_public(I, rxn, 'transition_state', ListV([bep]))
         set_public(I, rxn, 'transition_state_stoich', ListV([C(1)]))
         kw = {'T': T, 'P': P}
@@ -105,7 +193,7 @@ def bep_rules(run, repo):
             # forward minus reverse barrier == reaction enthalpy (energy) in the forward direction
             kwq = dict(kw) if q == 'get_HoRT' else dict(kw)
             dq = expected_delta(I, rxn, q, kwq, False, False) * Rk * T
-            run.check(same(Ef - Er, dq), 'ALG.bep-difference', 'BEP.get_E_act', 'descriptor:' + desc,
+            run.check(same(Ef - Er, dq), 'ALG.bep-difference', 'BEP.get_E_act', 'descriptor:' + desc + tag,
                       'forward minus reverse barrier is %s, not the reaction %s'
                       % (show(Ef - Er, 200), 'enthalpy' if q == 'get_HoRT' else 'electronic energy'),
                       owner.module, fn, sample='BEP[%s]: E_act(fwd) - E_act(rev) == delta %s' % (desc, q[4]))
@@ -115,10 +203,10 @@ def bep_rules(run, repo):
         # the barrier is linear in the slope: its slope-derivative is the descriptor value the relation used
         # (read off the public get_E_act, whatever private helper evaluates it)
         if not (isinstance(Ef, Rat) and isinstance(Er, Rat)):
-            run.fail('REF.bep-descriptor', 'BEP.get_E_act', 'descriptor:' + desc,
+            run.fail('REF.bep-descriptor', 'BEP.get_E_act', 'descriptor:' + desc + tag,
                      'get_E_act did not produce a value: %s / %s' % (show(Ef, 120), show(Er, 120)), owner.module, fn)
             n += 1
-            continue
+            return n
         dval = D.d(Ef, 'bep.slope')
         # the descriptor named is the quantity evaluated (documented table of descriptors)
         if 'delta' in desc:
@@ -127,7 +215,7 @@ def bep_rules(run, repo):
             kws = dict(kw, include_ZPE=False) if q == 'get_EoRT' else kw
             want_d = expected_state(I, rxn, desc.split('_')[0], q, kws) * Rk * T
         run.check(same(dval, want_d) and same(D.d(Er, 'bep.slope'), want_d), 'REF.bep-descriptor', 'BEP.get_E_act',
-                  'descriptor:' + desc,
+                  'descriptor:' + desc + tag,
                   'descriptor %r enters the barrier as %s (forward) / %s (reverse), expected %s in kcal/mol'
                   % (desc, show(dval, 160), show(D.d(Er, 'bep.slope'), 160), show(want_d, 160)),
                   owner.module, fn)
@@ -137,7 +225,7 @@ def bep_rules(run, repo):
                 adj = slope if rev else slope - 1
             else:
                 adj = slope - 1 if rev else slope
-            run.check(same(E, adj * dval + icpt), 'REF.bep', 'BEP.get_E_act', 'descriptor:%s rev=%s' % (desc, rev),
+            run.check(same(E, adj * dval + icpt), 'REF.bep', 'BEP.get_E_act', 'descriptor:%s rev=%s%s' % (desc, rev, tag),
                       'barrier is %s, expected (slope%s)*descriptor + intercept'
                       % (show(E, 200), '' if same(adj, slope) else ' - 1'), owner.module, fn)
             n += 1
@@ -147,14 +235,14 @@ def bep_rules(run, repo):
             if q != 'get_HoRT' or 'delta' not in desc:
                 continue
             via = I.call_method(rxn, 'get_delta_HoRT', [], dict(kw, rev=rev, act=True))
-            run.check(same(via, E / (Rk * T)), 'ALG.bep-as-TS', 'BEP.get_HoRT', 'descriptor:%s rev=%s' % (desc, rev),
+            run.check(same(via, E / (Rk * T)), 'ALG.bep-as-TS', 'BEP.get_HoRT', 'descriptor:%s rev=%s%s' % (desc, rev, tag),
                       'activation enthalpy through the BEP transition state is %s but the relation itself gives %s'
                       % (show(via, 200), show(E / (Rk * T), 200)), o2.module, f2,
                       sample='Reaction(TS=BEP[%s]).get_delta_HoRT(act, rev=%s) == BEP.get_EoRT_act' % (desc, rev))
             n += 1
         # the same relation in the other unit systems of the barrier (the intercept is documented in kcal/mol)
         for u in DIM_UNITS:
-            if u == 'kcal/mol':
+            if u == 'kcal/mol' or quick_witness:
                 continue
             Ru = gas_constant(I, u)
             Eu = {}
@@ -162,7 +250,7 @@ def bep_rules(run, repo):
                 Eu[rev] = I.call_method(bep, 'get_E_act', [], dict(kw, units=u, reaction=rxn, rev=rev))
                 wu = (adj_slope(desc, rev, slope) * want_d + icpt) * Ru / Rk
                 run.check(isinstance(Eu[rev], Rat) and same(Eu[rev], wu), 'REF.bep', 'BEP.get_E_act',
-                          'descriptor:%s rev=%s units=%s' % (desc, rev, u),
+                          'descriptor:%s rev=%s units=%s%s' % (desc, rev, u, tag),
                           'barrier in %s is %s, expected ((slope%s)*descriptor + intercept) converted from kcal/mol: %s'
                           % (u, show(Eu[rev], 200), '' if same(adj_slope(desc, rev, slope), slope) else ' - 1',
                              show(wu, 200)), owner.module, fn)
@@ -170,7 +258,7 @@ def bep_rules(run, repo):
             if 'delta' in desc and isinstance(Eu[False], Rat) and isinstance(Eu[True], Rat):
                 dqu = expected_delta(I, rxn, q, kw, False, False) * Ru * T
                 run.check(same(Eu[False] - Eu[True], dqu), 'ALG.bep-difference', 'BEP.get_E_act',
-                          'descriptor:%s units=%s' % (desc, u),
+                          'descriptor:%s units=%s%s' % (desc, u, tag),
                           'forward minus reverse barrier in %s is %s, not the reaction %s %s'
                           % (u, show(Eu[False] - Eu[True], 200), 'enthalpy' if q == 'get_HoRT' else 'electronic energy',
                              show(dqu, 200)), owner.module, fn)
@@ -179,7 +267,7 @@ def bep_rules(run, repo):
                     for rev in (False, True):
                         via = I.call_method(rxn, 'get_delta_H', [], dict(kw, units=u, rev=rev, act=True))
                         run.check(same(via, Eu[rev]), 'ALG.bep-as-TS', 'BEP.get_HoRT',
-                                  'descriptor:%s rev=%s units=%s' % (desc, rev, u),
+                                  'descriptor:%s rev=%s units=%s%s' % (desc, rev, u, tag),
                                   'activation enthalpy through the BEP transition state is %s %s but the relation '
                                   'itself gives %s' % (show(via, 200), u, show(Eu[rev], 200)), o2.module, f2)
                         n += 1
@@ -189,11 +277,11 @@ def bep_rules(run, repo):
         H = I.call_method(bep, 'get_HoRT', [], dict(kw, reaction=rxn))
         Ur = expected_state(I, rxn, 'reactants', 'get_UoRT', kw)
         Hr = expected_state(I, rxn, 'reactants', 'get_HoRT', kw)
-        run.check(same(U - Ur, H - Hr), 'SIB.bep-offsets', 'BEP.get_UoRT', 'same-barrier',
+        run.check(same(U - Ur, H - Hr), 'SIB.bep-offsets', 'BEP.get_UoRT', 'same-barrier' + tag,
                   '[descriptor %s] internal-energy offset over the reactants is %s but the enthalpy offset is %s: '
                   'they must use the same (forward) barrier' % (desc, show(U - Ur, 160), show(H - Hr, 160)),
                   o3.module, f3)
-        run.check(same(H - Hr, Ef / (Rk * T)), 'REF.bep', 'BEP.get_HoRT', 'descriptor:' + desc,
+        run.check(same(H - Hr, Ef / (Rk * T)), 'REF.bep', 'BEP.get_HoRT', 'descriptor:' + desc + tag,
                   'enthalpy of the BEP transition state is not reactants + forward barrier', o2.module, f2)
         n += 2
     return n
@@ -382,17 +470,16 @@ def preexp_surface(run, repo, classes):
                                       % (ulabel, show(gu, 160), ' * q_TS/q_IS' if has_ts else '', ulabel, nsurf - 1,
                                          show(wu, 160)), owner.module, fn)
                             n += 1
-                    if has_ts:
-                        kwq = {'T': T, 'P': P, 'ignore_q_elec': True, 'include_ZPE': False}
-                        base = kb / h * expected_delta(I, rxn, 'get_q', kwq, False, True)
-                    else:
-                        base = kb / h
+                    def q_ratio(Tc, Pc, rev_):
+                        kwq = {'T': Tc, 'P': Pc, 'ignore_q_elec': True, 'include_ZPE': False}
+                        return expected_delta(I, rxn, 'get_q', kwq, rev_, True)
+                    base = kb / h * q_ratio(T, P, False) if has_ts else kb / h
                     if not permuted:
                         key = 'TS=%s surface species=%d op=%s' % (has_ts, n_surf_species, op)
                     else:
                         key = 'TS=%s surface reactants at %s of 3 op=%s' % (has_ts, '+'.join(map(str, surf_idx)), op)
                     if not sd:
-                        want = base
+                        scale = C(1)
                     else:
                         if op == 'sum':
                             eff = sum(sd[1:], sd[0])
@@ -407,7 +494,9 @@ def preexp_surface(run, repo, classes):
                         if cname == 'SurfaceReaction':
                             # mol/cm2 -> molec/cm2 (default units)
                             eff = eff * D.sym('U<molec>')
-                        want = base / eff.powi(nsurf - 1) if isinstance(eff, Rat) else None
+                        # (effective site density)^(n_surf-1): the divisor of every factor this step hands out
+                        scale = eff.powi(nsurf - 1)
+                    want = base / scale
                     if isinstance(got, Raised):
                         run.fail('REF.A', cname + '.get_A', key, 'get_A raises %s' % got.exc, owner.module, fn)
                     else:
@@ -417,6 +506,45 @@ def preexp_surface(run, repo, classes):
                                                  nsurf), owner.module, fn,
                                   sample='%s.get_A: %s' % (cname, key) if op == 'sum' and has_ts else None)
                     n += 1
+                    # the same object is asked again, as write_surf / to_cti / to_omkm_yaml do: with the other options
+                    # of the getter (each combined with more than one surface reactant), in the other direction, by
+                    # the entropy route with a molecularity, and under other conditions.  Every answer has its own
+                    # reference; nothing an earlier call left behind may show
+                    if isinstance(got, Raised) or (run.tier != 'thorough' and (permuted or op in ('min', 'mean'))):
+                        continue      # quick tier: the layouts written surface species first, one sum and one extremum
+                    T2, P2, m_ = D.sym('T2'), D.sym('P2'), D.sym('m')
+                    again = [('include_entropy=False', {'T': T, 'P': P, 'include_entropy': False}, kb / h,
+                              'kB/h (no entropy of activation)')]
+                    if has_ts:
+                        kws = {'T': T, 'P': P}
+                        again += [
+                            ('rev=True', {'T': T, 'P': P, 'rev': True}, kb / h * q_ratio(T, P, True),
+                             'kB/h * q_TS/q_products (reverse direction)'),
+                            ('m, use_q=False', {'T': T, 'P': P, 'm': m_, 'use_q': False},
+                             kb / h * D.exp(expected_delta(I, rxn, 'get_SoR', kws, False, True)) * D.exp(m_),
+                             'kB/h * exp(dS_act/R + m)')]
+                        if run.tier == 'thorough':
+                            again += [
+                                ('rev=True, m, use_q=False', {'T': T, 'P': P, 'rev': True, 'm': m_, 'use_q': False},
+                                 kb / h * D.exp(expected_delta(I, rxn, 'get_SoR', kws, True, True)) * D.exp(m_),
+                                 'kB/h * exp(dS_act(reverse)/R + m)')]
+                    again += [('again at (T2, P2)', {'T': T2, 'P': P2},
+                               kb / h * q_ratio(T2, P2, False) if has_ts else kb / h,
+                               'kB/h%s at the conditions of this call' % (' * q_TS/q_IS' if has_ts else ''))]
+                    if run.tier == 'thorough':
+                        again += [('again at (T, P)', {'T': T, 'P': P}, base, 'the first answer')]
+                    for label, kwx, bx, text in again:
+                        gx = I.call_method(rxn, 'get_A', [], dict(kwx, sden_operation=op))
+                        wx = bx / scale
+                        if isinstance(gx, Raised):
+                            run.fail('REF.A', cname + '.get_A', key + ' | ' + label, 'get_A raises %s' % gx.exc,
+                                     owner.module, fn)
+                        else:
+                            run.check(same(gx, wx), 'REF.A', cname + '.get_A', key + ' | ' + label,
+                                      'get_A(%s) on a step asked before is %s, expected %s = (%s) / (effective site '
+                                      'density of the surface reactants)^(n_surf-1) with n_surf=%d'
+                                      % (label, show(gx, 200), show(wx, 200), text, nsurf), owner.module, fn)
+                        n += 1
         # include_entropy=False drops the transition-state factor
         I = Interp(repo)
         D = I.D
@@ -497,5 +625,33 @@ MUTANTS = [
      'edits': [(B_, "return E_act * c.R('{}/K'.format(units)) / c.R('kcal/mol/K')", "return E_act * c.R('kcal/mol/K') / c.R('{}/K'.format(units))")]},
     {'name': 'entropy fallback of Reaction.get_A forgets rev', 'expect': ('REF.A', 'Reaction.get_A'),
      'edits': [(R_, "                use_q = False\n        if not use_q:\n            A = np.exp(self.get_delta_SoR(rev=rev, act=True, T=T, **kwargs))", "                A = np.exp(self.get_delta_SoR(act=True, T=T, **kwargs))\n        else:\n            A = np.exp(self.get_delta_SoR(rev=rev, act=True, T=T, **kwargs))")]},
+    # white-box review, round 2 (whitebox2/C09_A1..A4): the essential edit of each change
+    {'name': 'Chemkin get_A names rev and does not hand it on', 'expect': ('REF.A', 'ChemkinReaction.get_A'),
+     'edits': [(R_, "              include_entropy=True,\n              T=c.T0('K'),\n              **kwargs):\n        \"\"\"Calculates the preexponential factor in the Chemkin format", "              include_entropy=True,\n              T=c.T0('K'),\n              rev=False,\n              **kwargs):\n        \"\"\"Calculates the preexponential factor in the Chemkin format")]},
+    {'name': 'Surface get_A names rev and does not hand it on', 'expect': ('REF.A', 'SurfaceReaction.get_A'),
+     'edits': [(O_, "              units='molec/cm2',\n              **kwargs):", "              units='molec/cm2',\n              rev=False,\n              **kwargs):")]},
+    {'name': 'Chemkin get_A returns kB/h early without entropy (site densities skipped)',
+     'expect': ('REF.A', 'ChemkinReaction.get_A'),
+     'edits': [(R_, "        if self.transition_state is None or not include_entropy:\n            A = c.kb('J/K') / c.h('J s')", "        if not include_entropy:\n            return c.kb('J/K') / c.h('J s')\n        if self.transition_state is None:\n            A = c.kb('J/K') / c.h('J s')")]},
+    {'name': 'Chemkin get_G_act memoised on (units, T, rev): the pressure is not in the key',
+     'expect': ('TWIN.act-dim', 'ChemkinReaction.get_G_act'),
+     'edits': [(R_, "        self.gas_phase = self._is_gas_phase()\n", "        self.gas_phase = self._is_gas_phase()\n        self._G_act = {}\n"),
+               (R_, "        return self.get_GoRT_act(T=T, rev=rev, **kwargs)*T \\\n               *c.R('{}/K'.format(units))", "        key = (units, T, rev)\n        try:\n            G_act = self._G_act[key]\n        except KeyError:\n            G_act = self.get_GoRT_act(T=T, rev=rev, **kwargs)*T \\\n                    *c.R('{}/K'.format(units))\n            self._G_act[key] = G_act\n        return G_act", 1, 2)]},
+    {'name': 'Chemkin get_A keeps its list of site densities on the object (grows with every call)',
+     'expect': ('REF.A', 'ChemkinReaction.get_A'),
+     'edits': [(R_, "        self.gas_phase = self._is_gas_phase()\n", "        self.gas_phase = self._is_gas_phase()\n        self._site_dens = []\n"),
+               (R_, "            site_dens = []\n            for reactant, stoich in zip(self.reactants, self.reactants_stoich):\n                # Skip species without a catalyst site\n                try:\n                    site_den = reactant.cat_site.site_density", "            site_dens = self._site_dens\n            for reactant, stoich in zip(self.reactants, self.reactants_stoich):\n                # Skip species without a catalyst site\n                try:\n                    site_den = reactant.cat_site.site_density")]},
+    {'name': 'BEP barrier clipped at zero', 'expect': ('ALG.bep-difference', 'BEP.get_E_act'),
+     'edits': [(B_, "        E_act = adj_slope * descriptor_val + self.intercept\n", "        E_act = adj_slope * descriptor_val + self.intercept\n        if E_act < 0.:\n            E_act = 0.\n")]},
+    {'name': 'Surface get_HoRT_act remembers its first answer per direction', 'expect': ('REF.clamp', 'SurfaceReaction.get_HoRT_act'),
+     'edits': [(O_, "        act = self.transition_state is not None\n        return np.max([\n            0.,\n            super().get_delta_HoRT(rev=rev, act=act, **kwargs),\n            super().get_delta_HoRT(rev=rev, act=False, **kwargs)\n        ])", "        act = self.transition_state is not None\n        try:\n            return self._HoRT_act[rev]\n        except AttributeError:\n            self._HoRT_act = {}\n        except KeyError:\n            pass\n        self._HoRT_act[rev] = np.max([\n            0.,\n            super().get_delta_HoRT(rev=rev, act=act, **kwargs),\n            super().get_delta_HoRT(rev=rev, act=False, **kwargs)\n        ])\n        return self._HoRT_act[rev]")]},
 ]
-EQUIV = []
+# behaviour-preserving rewrites of the same round (whitebox2/C09_B1..B3), reduced: must stay silent
+EQUIV = [
+    {'name': 'clamp as nested maximum: max(0, max(barrier, change))',
+     'edits': [(R_, "        return np.max([\n            0.,\n            super().get_delta_HoRT(rev=rev, act=act, **kwargs),\n            super().get_delta_HoRT(rev=rev, act=False, **kwargs)\n        ])", "        barrier = np.max([\n            super().get_delta_HoRT(rev=rev, act=act, **kwargs),\n            super().get_delta_HoRT(rev=rev, act=False, **kwargs)\n        ])\n        return np.max([0., barrier])")]},
+    {'name': 'Surface get_H_act as maximum of the dimensional changes',
+     'edits': [(O_, "        R_units = '{}/K'.format(units)\n        return self.get_HoRT_act(rev=rev, T=T, **kwargs)*T*c.R(R_units)", "        act = self.transition_state is not None\n        return np.max([\n            0.,\n            super().get_delta_H(units=units, T=T, rev=rev, act=act, **kwargs),\n            super().get_delta_H(units=units, T=T, rev=rev, act=False, **kwargs)\n        ])")]},
+    {'name': 'BEP.slope and BEP.intercept as properties over private attributes',
+     'edits': [(B_, "    def _get_descriptor_val(self, reaction, **kwargs):", "    @property\n    def slope(self):\n        return self._slope\n\n    @slope.setter\n    def slope(self, val):\n        self._slope = val\n\n    @property\n    def intercept(self):\n        return self._intercept\n\n    @intercept.setter\n    def intercept(self, val):\n        self._intercept = val\n\n    def _get_descriptor_val(self, reaction, **kwargs):")]},
+]
